@@ -344,7 +344,7 @@ func seqCellResult(prop string, sigPrefix string, sr SeqResult, first string) Ce
 		js, _ := json.Marshal(f.Seq)
 		res.Violations = append(res.Violations, Violation{
 			Signature: sigPrefix + " " + classify(f.Detail),
-			Detail:    f.Detail + "\n  sequence: " + strings.Join(f.Names, "; "),
+			Detail:    f.Detail + "\n  sequence: " + first + "; " + strings.Join(f.Names, "; "),
 			Extra:     js,
 		})
 	}
